@@ -408,6 +408,32 @@ def handleStyle (j : Json) : Option Json := do
     | .raises => Json.null
   some (Json.mkObj [("words", Json.arr (words.map Json.str).toArray), ("name", r)])
 
+def strList? (j : Json) : Option (List String) := do (← getArr? j).toList.mapM getStr?
+
+def handlePreserve (j : Json) : Option Json := do
+  let defs ← (field? j "defs") >>= strList?
+  let assigns ← (field? j "assigns") >>= strList?
+  let pres ← (field? j "preserve") >>= strList?
+  let cms ← (field? j "class_methods") >>= getArr?
+  let cms ← cms.toList.mapM (fun p => do
+    let a ← getArr? p
+    some ((← getStr? a[0]!), (← getStr? a[1]!)))
+  let usedJ ← (field? j "used") >>= getArr?
+  let used ← usedJ.toList.mapM (fun p => do
+    let a ← getArr? p
+    some ((← getStr? a[0]!), (← strList? a[1]!)))
+  let ns ← (field? j "ns") >>= getStr?
+  let imported ← (field? j "imported") >>= strList?
+  let loads ← (field? j "loads") >>= strList?
+  let attrsJ ← (field? j "attrs") >>= getArr?
+  let attrs ← attrsJ.toList.mapM (fun p => do
+    let a ← getArr? p
+    some ((if a[0]!.isNull then none else getStr? a[0]!), (← getStr? a[1]!)))
+  some (Json.mkObj [
+    ("safe", Json.arr ((Preserve.safeSet ⟨defs, cms, assigns⟩ pres).map Json.str).toArray),
+    ("file_preserve", Json.arr ((Preserve.filePreserve used ns).map Json.str).toArray),
+    ("used_names", Json.arr ((Preserve.usedNames ⟨imported, loads, attrs⟩).map Json.str).toArray)])
+
 def dispatch (j : Json) : Json :=
   match (field? j "suite") >>= getStr? with
   | some "sched" => (handleSched j).getD bad
@@ -427,6 +453,7 @@ def dispatch (j : Json) : Json :=
   | some "offsets" => (handleOffsets j).getD bad
   | some "formatfiles" => (handleFormatFiles j).getD bad
   | some "style" => (handleStyle j).getD bad
+  | some "preserve" => (handlePreserve j).getD bad
   | _ => bad
 
 partial def loop (h : IO.FS.Stream) (out : IO.FS.Stream) : IO Unit := do
